@@ -485,23 +485,24 @@ func prefixSweep(env *vh.Env, rep *vh.Report, rng *vh.Rng, encs []enc) {
 	var lines []string
 	var lineOf [][2]int // (enc, index in results[enc])
 	for ei, e := range encs {
-		if e.kind != "value" && !strings.HasPrefix(e.kind, "prim:") {
+		if e.kind != "value" && e.kind != "pack" && !strings.HasPrefix(e.kind, "prim:") {
 			continue
 		}
-		for k, r := range results[ei] {
-			if e.kind == "value" {
-				lines = append(lines, "V "+vh.Hex(e.b[:r.n]))
-			} else {
-				lines = append(lines, "R "+e.kind[5:]+" "+vh.Hex(e.b[:r.n]))
+		cmd := func(b []byte) string {
+			switch {
+			case e.kind == "value":
+				return "V " + vh.Hex(b)
+			case e.kind == "pack": // the transcribed reader layout of the pack type, instrumented (FailClosed.toA)
+				return "LP " + vh.Hex(b)
 			}
+			return "R " + e.kind[5:] + " " + vh.Hex(b)
+		}
+		for k, r := range results[ei] {
+			lines = append(lines, cmd(e.b[:r.n]))
 			lineOf = append(lineOf, [2]int{ei, k})
 		}
 		// the complete encoding
-		if e.kind == "value" {
-			lines = append(lines, "V "+vh.Hex(e.b))
-		} else {
-			lines = append(lines, "R "+e.kind[5:]+" "+vh.Hex(e.b))
-		}
+		lines = append(lines, cmd(e.b))
 		lineOf = append(lineOf, [2]int{ei, -1})
 	}
 	outs, err := vh.RunDriver(env.Driver, lines)
@@ -513,8 +514,15 @@ func prefixSweep(env *vh.Env, rep *vh.Report, rng *vh.Rng, encs []enc) {
 		ei, k := lineOf[i][0], lineOf[i][1]
 		e := encs[ei]
 		f := strings.Fields(o)
+		if o == "skip" { // pack type without a fully transcribed layout
+			rep.Count("model:pack-layout:skip")
+			continue
+		}
 		if len(f) < 2 {
 			vh.Die("driver answered %q to %q", o, vh.Clip(lines[i], 100))
+		}
+		if e.kind == "pack" {
+			rep.Count("model:pack-layout:" + e.typ)
 		}
 		if k < 0 {
 			rep.Count("model:full:" + f[0])
@@ -559,7 +567,9 @@ func prefixSweep(env *vh.Env, rep *vh.Report, rng *vh.Rng, encs []enc) {
 				rep.Fail("property", "ReadBytes:short-read-accepted",
 					fmt.Sprintf("%s: the %d-byte strict prefix of a valid %d-byte encoding decodes to an object (Available() = %d afterwards: a read past the end was answered with zero padding)", e.typ, r.n, len(e.b), r.avail), rc)
 				if modelFail[[2]int{ei, k}] {
-					if e.kind == "value" {
+					if e.kind == "pack" {
+						// no as-found model of the pack layouts
+					} else if e.kind == "value" {
 						asFoundLines = append(asFoundLines, "VF "+vh.Hex(e.b[:r.n]))
 					} else {
 						asFoundLines = append(asFoundLines, "RF "+e.kind[5:]+" "+vh.Hex(e.b[:r.n]))
